@@ -9,7 +9,9 @@ package main
 //
 //   E <term>                    -> <ErrorCode(err)>|<hex Error() or nil>|<kind>|<ErrorCode(call err)>|<hex msg>|<hex data>|<jsoneq>
 //                                  jsoneq: for a top-level *Error that arrived as a *Error, 1/0 = its Data is / is not
-//                                  JSON-equal (encoding/json decode, DeepEqual) to the Data sent; "-" otherwise
+//                                  JSON-equal (encoding/json decode, DeepEqual) to the Data sent; when the Data sent is
+//                                  not JSON (it cannot be encoded; fix F16: the error is sent without it), d/0 = the
+//                                  error arrived without / with data; "-" otherwise
 //   R <rkind> <rarg> <term>     -> <kind>|<code>|<hex msg>|<hex data>      handler returns (value, err(term))
 //   N <rkind> <rarg> <term>     -> none | <code>|<hex msg>|<hex data>      same, sent as a notification
 //   K <mode> <rkind> <rarg> <term> -> <kind>|<code>|<hex msg>|<hex data>   as R, but the handler returns only after the
@@ -19,6 +21,12 @@ package main
 //                                  deadline = that context has a deadline and the handler waits until it has passed;
 //                                  live = nothing is done (the same server, control).  "E?ctx:..." = the handler did not
 //                                  find its context in the state the mode asks for
+//   B <rkind> <rarg> <term> [<rkind> <rarg> <term>]...
+//                               -> <reply>/<reply>/...   one Client.Batch with one call per triple (the handler of call i
+//                                  returns (value i, err(term i))); reply = <kind>|<code>|<hex msg>|<hex data> as it is on
+//                                  the wire (Batch does not turn the context codes into the sentinels): kind R, J or L.
+//                                  Every call of a batch must get the reply it would get alone (finding F17: a *Error
+//                                  whose Data is not JSON used to silence the whole batch)
 //   C <int32>                   -> <ErrorCode(Code(c).Err())>|<hex text or nil>
 //   W <recv> <code> <hexmsg> <hexdata> <vkind> <varg>
 //                               -> crash | retnil|<unchanged> | <same>|<unchanged>|<code>|<hex msg>|<hex data>
@@ -27,7 +35,7 @@ package main
 //
 //   kind: J = *jrpc2.Error, C = the context.Canceled sentinel, D = the
 //         context.DeadlineExceeded sentinel, R = no error (msg "-", data = result),
-//         L = no reply (the call's own deadline expired), O = any other error
+//         L = no reply (the call's own deadline expired; never expected: fix F16), O = any other error
 //
 //   term ::= J(code,hexmsg,hexdata)    &jrpc2.Error{...}
 //          | V(code,hexmsg,hexdata)    jrpc2.Error{...} (a value, not a pointer)
@@ -380,6 +388,10 @@ type c14Pair struct {
 	ran        bool
 	ctxErr     error
 
+	// family B: what the handler of call i of the batch returns
+	bvals []any
+	berrs []error
+
 	unexpectedLosses int
 }
 
@@ -435,6 +447,13 @@ func c14StartCtx(withCtx bool) *c14Pair {
 			p.ctxErr = ctx.Err()
 			return p.val, p.err
 		},
+		"b": func(ctx context.Context, req *jrpc2.Request) (any, error) {
+			var ix []int
+			if err := req.UnmarshalParams(&ix); err != nil || len(ix) != 1 || ix[0] < 0 || ix[0] >= len(p.bvals) {
+				return nil, errors.New("harness: bad batch index")
+			}
+			return p.bvals[ix[0]], p.berrs[ix[0]]
+		},
 	}, opts)
 	p.srv.Start(sch)
 	p.cli = jrpc2.NewClient(cch, nil)
@@ -444,7 +463,7 @@ func c14StartCtx(withCtx bool) *c14Pair {
 // callCtx runs one call of family K.  The deadline mode is retried with a longer deadline
 // when the deadline passed before the handler was started (then invoke fails in
 // sem.Acquire and no handler error exists to be kept).
-func (p *c14Pair) callCtx(mode string, val any, err error, mayLose bool) string {
+func (p *c14Pair) callCtx(mode string, val any, err error) string {
 	want := map[string]error{"self": context.Canceled, "helper": context.Canceled, "base": context.Canceled,
 		"deadline": context.DeadlineExceeded, "live": nil}
 	wantErr, ok := want[mode]
@@ -454,7 +473,7 @@ func (p *c14Pair) callCtx(mode string, val any, err error, mayLose bool) string 
 	defer func() { p.mode = "" }()
 	for _, dl := range []time.Duration{10 * time.Millisecond, 100 * time.Millisecond, time.Second} {
 		p.mode, p.deadline, p.ran, p.ctxErr, p.baseCancel = mode, dl, false, nil, nil
-		obs := p.call(val, err, mayLose)
+		obs := p.call(val, err)
 		if p.baseCancel != nil {
 			p.baseCancel()
 		}
@@ -479,22 +498,72 @@ func (p *c14Pair) stop() {
 
 // call runs one call whose handler returns (val, err) and describes what Call returned.
 // Every call carries its own deadline so that a lost reply is an observation ("L") and
-// not a hang: 150 ms where the specification expects the loss (mayLose: a top-level
-// *Error whose Data is not JSON), 2 s otherwise, retried once with 5 s before an
-// unexpected loss is reported (a slow machine must not look like a lost reply).
-func (p *c14Pair) call(val any, err error, mayLose bool) string {
+// not a hang.  The specification never expects a loss (since fix F16 a top-level *Error
+// whose Data is not JSON is sent without its data): the deadline is 2 s, retried once
+// with 5 s before the loss is reported (a slow machine must not look like a lost
+// reply); after three reported losses the run is a violation anyway and the deadline
+// drops to 150 ms so that it still ends in reasonable time.
+func (p *c14Pair) call(val any, err error) string {
 	p.val, p.err = val, err
-	limit := 2 * time.Second
-	if mayLose || p.unexpectedLosses >= 3 {
-		limit = 150 * time.Millisecond
-	}
-	obs, lost := p.callOnce(limit)
-	if lost && !mayLose && p.unexpectedLosses < 3 {
+	obs, lost := p.callOnce(p.limit())
+	if lost && p.unexpectedLosses < 3 {
 		if obs, lost = p.callOnce(5 * time.Second); lost {
 			p.unexpectedLosses++
 		}
 	}
 	return obs
+}
+
+func (p *c14Pair) limit() time.Duration {
+	if p.unexpectedLosses >= 3 {
+		return 150 * time.Millisecond
+	}
+	return 2 * time.Second
+}
+
+// batch runs one Client.Batch of len(vals) calls; the handler of call i returns
+// (vals[i], errs[i]).  Same deadlines as call.
+func (p *c14Pair) batch(vals []any, errs []error) string {
+	p.bvals, p.berrs = vals, errs
+	obs, lost := p.batchOnce(p.limit())
+	if lost && p.unexpectedLosses < 3 {
+		if obs, lost = p.batchOnce(5 * time.Second); lost {
+			p.unexpectedLosses++
+		}
+	}
+	return obs
+}
+
+func (p *c14Pair) batchOnce(limit time.Duration) (string, bool) {
+	ctx, cancel := context.WithTimeout(context.Background(), limit)
+	defer cancel()
+	specs := make([]jrpc2.Spec, len(p.bvals))
+	for i := range specs {
+		specs[i] = jrpc2.Spec{Method: "b", Params: []int{i}}
+	}
+	rsps, err := p.cli.Batch(ctx, specs)
+	if err != nil {
+		return "E?batch:" + hexf(err.Error()), false
+	}
+	if len(rsps) != len(specs) {
+		return fmt.Sprintf("E?batch-size:%d", len(rsps)), false
+	}
+	lost := false
+	out := make([]string, len(rsps))
+	for i, rsp := range rsps {
+		je := rsp.Error()
+		switch {
+		case je == nil:
+			out[i] = fmt.Sprintf("R|0|-|%s", hexf(rsp.ResultString()))
+		case ctx.Err() != nil && je.Code == jrpc2.ErrorCode(ctx.Err()) && je.Message == ctx.Err().Error() && len(je.Data) == 0:
+			// the error the client itself fills in when the deadline of the batch passes
+			out[i] = "L|0|-|-"
+			lost = true
+		default:
+			out[i] = fmt.Sprintf("J|%d|%s|%s", int(je.Code), hexf(je.Message), hexf(string(je.Data)))
+		}
+	}
+	return strings.Join(out, "/"), lost
 }
 
 func (p *c14Pair) callOnce(limit time.Duration) (string, bool) {
@@ -720,7 +789,8 @@ func c14JSONEqual(a, b string) bool {
 	return oka && okb && reflect.DeepEqual(va, vb)
 }
 
-func c14MayLose(t *c14Term) bool {
+// c14Undeliverable: a top-level *Error whose Data is not JSON (json.Marshal of it fails).
+func c14Undeliverable(t *c14Term) bool {
 	return t.kind == 'J' && t.data != "" && !json.Valid([]byte(t.data))
 }
 
@@ -735,13 +805,19 @@ func (e *c14Exec) exec(f []string) []string {
 		if err != nil {
 			text = hexf(err.Error())
 		}
-		got := e.p().call(true, err, c14MayLose(t))
+		got := e.p().call(true, err)
 		// property monitor, independent of the model's compaction: the Data of a *Error
-		// that arrived as a *Error must be JSON-equal to the Data that was sent
+		// that arrived as a *Error must be JSON-equal to the Data that was sent; Data that
+		// cannot be sent (not JSON) must have been dropped
 		eq := "-"
 		if (t.kind == 'J' || t.kind == 'F') && strings.HasPrefix(got, "J|") {
 			eq = "0"
-			if c14JSONEqual(t.data, unhexf(got[strings.LastIndexByte(got, '|')+1:])) {
+			gotData := unhexf(got[strings.LastIndexByte(got, '|')+1:])
+			if c14Undeliverable(t) {
+				if gotData == "" {
+					eq = "d"
+				}
+			} else if c14JSONEqual(t.data, gotData) {
 				eq = "1"
 			}
 		}
@@ -750,11 +826,24 @@ func (e *c14Exec) exec(f []string) []string {
 	case "R":
 		val, rarg := c14Result(f[1], f[2])
 		t := c14Parse(f[3])
-		return []string{"R", f[1], rarg, f[3], e.p().call(val, t.build(), c14MayLose(t))}
+		return []string{"R", f[1], rarg, f[3], e.p().call(val, t.build())}
 	case "K":
 		val, rarg := c14Result(f[2], f[3])
 		t := c14Parse(f[4])
-		return []string{"K", f[1], f[2], rarg, f[4], e.kp().callCtx(f[1], val, t.build(), c14MayLose(t))}
+		return []string{"K", f[1], f[2], rarg, f[4], e.kp().callCtx(f[1], val, t.build())}
+	case "B":
+		if len(f) < 4 || (len(f)-1)%3 != 0 {
+			fatal("bad B line: %d fields", len(f))
+		}
+		n := (len(f) - 1) / 3
+		vals, errs := make([]any, n), make([]error, n)
+		out := []string{"B"}
+		for i := 0; i < n; i++ {
+			val, rarg := c14Result(f[1+3*i], f[2+3*i])
+			vals[i], errs[i] = val, c14Parse(f[3+3*i]).build()
+			out = append(out, f[1+3*i], rarg, f[3+3*i])
+		}
+		return append(out, e.p().batch(vals, errs))
 	case "N":
 		val, rarg := c14Result(f[1], f[2])
 		t := c14Parse(f[3])
@@ -886,12 +975,12 @@ var c14RandMsgs = []string{"", "m", "boom", "a: b", "%s %d %w %!w(<nil>)", "line
 var c14RandData = []string{"", "", "1", "null", `"s"`, `{"a":1}`, ` { "a" : [ 1 , 2.5e+3 , "x y" ] } `, "[]", "{}", "\n[\t1\r]\n",
 	"\"<>&\u2028\"", "\"\u2028\"", `-0.0e-0`, `[[[[[[]]]]]]`, `{"k":"😀\\\/"}`, "true", "false "}
 
-// Data that is not JSON: a top-level *Error carrying it loses the reply (the call
-// ends by its 150 ms deadline), so these are drawn rarely.
+// Data that is not JSON: json.Marshal of a *Error carrying it fails; since fix F16 the
+// error is sent without it (before, the reply was lost, and with it the rest of a batch).
 var c14BadData = []string{"{bad", "[1,]", "01", `"unterminated`, " ", "nul", "1 2", `{"a":}`, "\"\x01\"", `"\x"`, "\xff"}
 
 func c14RandDataPick(r *rng) string {
-	if r.chance(1, 40) {
+	if r.chance(1, 16) {
 		return pick(r, c14BadData)
 	}
 	return pick(r, c14RandData)
@@ -1059,9 +1148,85 @@ func c14Main(cfg *config) {
 		emit("E", s)
 	}
 
+	// 1b. (F17) batches: every call gets the reply it would get alone, whatever its siblings
+	// return; in particular next to a *Error whose Data is not JSON (early in the run, so that
+	// the model runner's report, which is cut after 50 disagreements, includes them)
+	bOK := []string{"ok", "-", "C(-32099)"}
+	bBad := []string{"ok", "-", c14J(7, "no", "{bad").String()}
+	bGood := []string{"ok", "-", c14J(7, "no", ` {"a": 1} `).String()}
+	bErr := []string{"ok", "-", "C(-32601)"}
+	bCanc := []string{"ok", "-", "W(77,X)"}
+	bRaw := []string{"r", hexf(" [1, 2] "), "L[]"}
+	bUnm := []string{"u", "chan", "C(-32099)"}
+	B := func(ms ...[]string) {
+		f := []string{"B"}
+		for _, m := range ms {
+			f = append(f, m...)
+		}
+		emit(f...)
+	}
+	B(bOK, bBad)
+	B(bBad, bOK)
+	B(bBad)
+	B(bOK)
+	B(bBad, bBad)
+	B(bOK, bGood, bBad, bErr)
+	B(bRaw, bBad, bUnm, bCanc)
+	B(bOK, bGood, bErr, bCanc, bRaw, bUnm)
+	for _, d := range c14BadData {
+		B(bOK, []string{"ok", "-", c14J(-32097, "x", d).String()}, bRaw)
+	}
+
 	// 2. every leaf over the basis
 	for _, t := range c14AllLeaves() {
 		E(t)
+	}
+
+	// 2b. (F16) a *Error whose Data is not JSON, as the returned value (data dropped, code and
+	// message kept, sentinel codes still become the sentinels), by value and wrapped (never
+	// had its data sent), with a result that cannot be marshalled, as a notification, and
+	// after the request was cancelled
+	for _, d := range c14BadData {
+		for _, c := range []int32{7, 0, -32603, -32097, -32096} {
+			for _, m := range []string{"boom", "bad\xffutf8"} {
+				E(c14J(c, m, d))
+			}
+		}
+		E(c14V(7, "boom", d))
+		E(c14W("w", c14J(7, "boom", d)))
+		E(c14L(c14J(7, "boom", d)))
+		E(c14L(c14P("p"), c14J(7, "boom", d)))
+		emit("R", "u", "chan", c14J(7, "boom", d).String())
+		emit("R", "m", c14J(7, "boom", d).String(), "C(-32099)")
+		emit("R", "r", hexf(" [1] "), c14J(7, "boom", d).String())
+		emit("N", "ok", "-", c14J(-32700, "boom", d).String())
+		emit("N", "m", c14J(-32700, "boom", d).String(), "C(-32099)")
+		emit("K", "self", "ok", "-", c14J(7, "boom", d).String())
+	}
+
+	// 2c. random batches
+	nb := 150
+	if thorough {
+		nb = 3000
+	}
+	for i := 0; i < nb; i++ {
+		n := 1 + r.intn(4)
+		var ms [][]string
+		for k := 0; k < n; k++ {
+			switch r.intn(6) {
+			case 0:
+				ms = append(ms, bOK)
+			case 1:
+				ms = append(ms, []string{"ok", "-", c14J(c14RandCode(r), pick(r, c14RandMsgs), pick(r, c14BadData)).String()})
+			case 2:
+				ms = append(ms, []string{"r", hexf(pick(r, c14RandData[2:])), "L[]"})
+			case 3:
+				ms = append(ms, []string{"u", pick(r, c14BadLabels), "C(-32099)"})
+			default:
+				ms = append(ms, []string{"ok", "-", c14RandTerm(r, 1+r.intn(3)).String()})
+			}
+		}
+		B(ms...)
 	}
 
 	// 3. code sweep: ErrorCode(Code(c).Err()) and the same code through every carrier
